@@ -17,7 +17,7 @@ use std::sync::Arc;
 
 use domain::net::server::buf::VecBufSource;
 use domain::net::server::dgram::DgramServer;
-use domain::net::server::stream::StreamServer;
+use domain::net::server::stream::{self, StreamServer};
 use serde_json::{json, Value};
 use server::*;
 use verif_harness::common::*;
@@ -101,10 +101,15 @@ fn main() {
         .unwrap();
     let n = rt.block_on(async move {
         let listener = MockListener::default();
-        let srv = Arc::new(StreamServer::new(
+        // at most 3 peers are connected at any time, so a limit of 3 must
+        // never refuse anybody -- whatever happened to earlier connections
+        let mut cfg = stream::Config::new();
+        cfg.set_max_concurrent_connections(3);
+        let srv = Arc::new(StreamServer::with_config(
             listener.clone(),
             VecBufSource,
             Arc::new(stack(ScriptSvc::echo())),
+            cfg,
         ));
         let srv_task = {
             let s = srv.clone();
@@ -130,8 +135,20 @@ fn main() {
             let pick = rng.below(10);
             if conns.is_empty() || (pick == 0 && conns.len() < 3) {
                 next_c += 1;
-                let (io, h) = mock_io(None);
-                listener.connect(io, format!("192.0.2.1:{}", 1000 + next_c).parse().unwrap());
+                // a transport that takes writes in pieces of 1, 2, 3 or 64
+                // octets, or whole
+                let chunk = [1usize, 2, 3, 64, 0][rng.below(5) as usize];
+                let (io, h) = mock_io_chunked(None, chunk);
+                let addr = format!("192.0.2.1:{}", 1000 + next_c).parse().unwrap();
+                if rng.chance(1, 5) {
+                    // connection setup (handshake) fails: no connection
+                    listener.connect_with(io, addr, false);
+                    settle().await;
+                    w.event(json!({"ev": "openfail", "c": next_c, "cl": h.is_closed(),
+                                   "alive": alive_now(())}));
+                    continue;
+                }
+                listener.connect(io, addr);
                 // what this peer is going to send: a train of bodies, framed
                 let mut stream = vec![];
                 let train = if rng.chance(1, 6) { 12 + rng.below(10) } else { 1 + rng.below(10) };
@@ -147,7 +164,8 @@ fn main() {
                 }
                 conns.push(Conn { c: next_c, io: h, pending: stream, seen: 0 });
                 settle().await;
-                w.event(json!({"ev": "open", "c": next_c, "alive": alive_now(())}));
+                w.event(json!({"ev": "open", "c": next_c, "chunk": chunk, "cl": conns[conns.len() - 1].io.is_closed(),
+                               "alive": alive_now(())}));
                 continue;
             }
             if pick <= 2 {
@@ -194,7 +212,7 @@ fn main() {
             conns[i].seen = frames.len();
             w.event(json!({"ev": ev, "c": conns[i].c, "data": json_bytes(&data),
                            "w": frames_json(&new), "left": left,
-                           "cl": conns[i].io.is_shutdown(), "alive": alive_now(())}));
+                           "cl": conns[i].io.is_closed(), "alive": alive_now(())}));
             if abort {
                 conns.remove(i);
             }
